@@ -164,6 +164,13 @@ T("c19-backoff-shift", ["C19"], RP, "            TIME_TO_SECOND_CONNECTION_ATTEM
 
 T("c20-merge-handlers", ["C20"], LP, "        except OSError as e:  # e.g. ConnectionRefusedError, \"Bad file descriptor\"\n            # no print-to-screen for this one\n            self.logger.info(\"%15s Disconnecting remote peer %s\" % (remote_peer.host, e))\n            self.disconnect(remote_peer, \"OS error\")\n\n",
   "")
+T("c20-height-link-difference-form", ["C20", "C09", "C01"], RP,
+  "            if block.height != previous_block.height + 1:\n", "            if block.height - previous_block.height != 1:\n")
+T("c20-height-link-negated-equality", ["C20", "C09", "C04"], RP,
+  "            if block.height != previous_block.height + 1:\n", "            if not (previous_block.height + 1 == block.header.summary.height):\n")
+T("c20-height-link-inline-parent", ["C20", "C09"], RP,
+  "            previous_block = coinstate_prior.block_by_hash[block.header.summary.previous_block_hash]\n            if block.height != previous_block.height + 1:\n",
+  "            previous_block = self.local_peer.chain_manager.coinstate.block_by_hash[block.previous_block_hash]\n            if block.height != 1 + previous_block.height:\n")
 T("c10-range-form", ["C10"], RP, "            for height in range(start_height, min(start_height + GET_BLOCKS_INVENTORY_SIZE, max_height))", "            for height in range(start_height, min(max_height, GET_BLOCKS_INVENTORY_SIZE + start_height))")
 T("c20-dispatch-elif", ["C20", "C10"], RP, "        if message.data_type == DATA_BLOCK:\n            return self.handle_block_received(header, message)\n\n        if message.data_type == DATA_TRANSACTION:\n            return self.handle_transaction_received(header, message)\n",
   "        if message.data_type == DATA_BLOCK:\n            return self.handle_block_received(header, message)\n        elif message.data_type == DATA_TRANSACTION:\n            return self.handle_transaction_received(header, message)\n")
